@@ -707,6 +707,18 @@ class Executor:
                 res = Val(v.ty, z3.If(t, res.term, v.term) if is_and
                                 else z3.If(t, v.term, res.term))
             return res
+        # `x or {}` / `x or []`: the literal takes the type of the other operand
+        lit = [v for v in vals if isinstance(v, (PyDict, PyTuple))]
+        oth = [v for v in vals if not isinstance(v, (PyDict, PyTuple))]
+        if lit and len(oth) == 1 and len(vals) == 2 and not is_and:
+            t = oth[0].ty.elem if isinstance(oth[0].ty, TOpt) else oth[0].ty
+            if isinstance(t, (TRec, TList, TMap)) and vals[0] is oth[0]:
+                try:
+                    b = coerce(lit[0], t)
+                    a = coerce(oth[0], t) if isinstance(oth[0].ty, TOpt) else oth[0]
+                    return Val(t, z3.If(truthy(oth[0]), a.term, b.term))
+                except OutsideSubset:
+                    pass
         try:
             ty = None
             for v in vals:
@@ -1406,6 +1418,10 @@ class Executor:
                 if p is None:
                     raise OutsideSubset('del target')
                 cont = self.read_path(st, p[0], p[1])
+                if isinstance(cont.ty, TOpt):
+                    self.fail(st, cont.ty.is_none(cont.term), 'TypeError')
+                    p = (p[0], p[1] + (('o',),))
+                    cont = Val(cont.ty.elem, cont.ty.val(cont.term))
                 key  = self.ev(tgt.slice, st)
                 if isinstance(cont.ty, TMap):
                     k = coerce(key, cont.ty.k)
@@ -1419,8 +1435,9 @@ class Executor:
                 if isinstance(cont.ty, TRec) and key.has_py():
                     fty = cont.ty.fields.get(key.py)
                     if isinstance(fty, TOpt):
-                        self.fail(st, fty.is_none(cont.ty.get(cont.term,
-                                                  key.py)), 'KeyError')
+                        # records conflate "key absent" and "key present with
+                        # value None" (A2): deleting such a key cannot be told
+                        # to fail, it leaves the field None
                         self.write_path(st, p[0], p[1] + (('f', key.py),),
                                         NONE)
                         continue
@@ -1485,6 +1502,15 @@ class Executor:
     def st_With(self, node, st):
         for item in node.items:
             chain = _attr_chain(item.context_expr)
+            weff = self.spec.get('with_effects', {}).get('.'.join(chain)
+                                                         if chain else None)
+            if weff is not None:
+                # the whole block is replaced by an effect (listed as dropped)
+                self.fsrc.dropped.append('L%d: with %s: <block replaced by '
+                    'effect %s>' % (node.lineno, '.'.join(chain),
+                                    getattr(weff, '__name__', 'handler')))
+                weff(self, node, st)
+                return [('next', st, None)]
             if chain and ('lock' in chain[-1].lower()):
                 continue              # critical section marker
             raise OutsideSubset('with %s' % ast.dump(item.context_expr)[:60])
